@@ -64,4 +64,28 @@ theorem dDone_user (s : St) (t r) {rest : List Frame} (hu : userLevel rest = tru
   | nil => rfl
   | cons f fs => cases f <;> simp [userLevel] at hu <;> rfl
 
+
+theorem drain_suffix (s : St) (t sz cbs thrown) {rest : List Frame} (hu : userLevel rest = true) (ec : List ObjId) :
+    rest <:+ (drain s t sz cbs thrown rest ec).stk t := by
+  induction ec generalizing s with
+  | nil =>
+    simp only [drain]; split
+    · rw [dDone_user _ _ _ hu]; simp
+    · simp
+  | cons k ec ih =>
+    simp only [drain]; split
+    · simp only [setStk_stk_same]
+      exact List.IsSuffix.trans (List.suffix_cons _ _) (List.suffix_cons _ _)
+    · exact ih _
+
+
+theorem drain_vec_user (s : St) (t sz cbs thrown) {rest : List Frame} (hu : userLevel rest = true) (ec : List ObjId) :
+    (drain s t sz cbs thrown rest ec).vec = s.vec := by
+  induction ec generalizing s with
+  | nil => simp only [drain]; split; rw [dDone_user _ _ _ hu]; rfl; rfl
+  | cons a l ih =>
+    simp only [drain]; split
+    · rfl
+    · exact ih _
+
 end ConcVerif.DD
